@@ -97,6 +97,10 @@ def lemmas(tier):
         else:
             body = ["a = R.conv_accepts(%r, %s)" % (c.id, x), "m = %s in %r" % (x, vals), "return a[0] == m and (not m or a[1] == %s)" % x]
             out.append(xh.Lemma("fclosed_%s" % c.id, params, body, pre=pre, meta=dict(meta, what="closed enum property: accepted iff declared value")))
+            if c.kind == "enum_int":
+                # the same number written as a JSON double (3.0): accepted iff it equals a declared value
+                body = ["a = R.conv_accepts(%r, float(x))" % c.id, "m = x in %r" % (vals,), "return a[0] == m and (not m or a[1] == x)"]
+                out.append(xh.Lemma("ffloat_%s" % c.id, params, body, pre=pre + ["-(2**40) <= x <= 2**40"], meta=dict(meta, what="closed enum property given as an integral JSON double: accepted iff declared value", as_float=True)))
     from vlib import ctxlemmas
 
     for l in ctxlemmas.lemmas(tier, kinds=("enum_str", "enum_int"), removal=False):
@@ -109,7 +113,7 @@ def check(tier):
     chk = runner.Check("C13", tier)
     value_layer(chk)
     ls = lemmas(tier)
-    results, stats = xh.run(ls, PREAMBLE, timeout=240 if tier == "thorough" else 60, label="c13")
+    results, stats = xh.run(ls, PREAMBLE, timeout=240 if tier == "thorough" else 60, label="c13", extra_env={"VERIF_REAL_FLOATS": "1"})
     chk.ev.add_counts(xh.summarize(results))
     chk.ev.coverage["solver_seconds"] += stats["cpu_s"]
     chk.ev.coverage["crosshair"] = {k: stats[k] for k in ("shards", "wall_s", "cpu_s", "timeout_per_condition_s")}
@@ -130,6 +134,8 @@ def check(tier):
             if ctxlemmas.replay(chk, l, r):
                 continue
             v = r.args.get("x", r.args.get("s"))
+            if l.meta.get("as_float"):
+                v = float(v)
             if l.meta.get("near"):
                 v = leafrt.near(l.meta["case"])[r.args["k"]]
             if l.meta["level"] == "class":
